@@ -40,8 +40,9 @@ def grouped_items(items):
 
 
 class Gen:
-    def __init__(self, rng, hostile=0.35, priv_hosts=True, quiet=False, filters=True):
+    def __init__(self, rng, hostile=0.35, priv_hosts=True, quiet=False, filters=True, ordered=False):
         self.rng = rng
+        self.ordered = ordered
         self.hostile = hostile
         self.priv_hosts = priv_hosts
         self.quiet = quiet
@@ -178,9 +179,25 @@ class Gen:
             return ("pv:%d:%d" % (k, n)) if sep == ":" else ("pv~%d" % n)
         return ("upv:%d" % k) if sep == ":" else "upv"
 
+    def ordered_cmd(self, k, sep=":"):
+        """INSERTORDEREDDATA / REORDERDATA (harness-only stream): own parents, and hostile parents / children elsewhere"""
+        rng = self.rng
+        known = self.paths[k]
+        if rng.random() < 0.6:
+            pats = uniq([rng.choice([rng.choice(known) if known else "x", self.relpat(), self.abs_target(k), "/*/*", "../*", "*"])
+                         for _ in range(rng.choice([1, 1, 2]))])
+            items = ["%s=%d" % (rng.choice(["-", "I0", "I1", "I2", "x", "I0"]), rng.randrange(10)) for _ in range(rng.choice([1, 2, 3]))]
+            return ("io:%d:%s:%s" % (k, "&".join(pats), "&".join(items))) if sep == ":" else ("io~%s~%s" % ("&".join(pats), "&".join(items)))
+        items = ["%s=%s" % (rng.choice([(rng.choice(known) if known else "x") + "/*", self.relpat(), self.abs_target(k), "*/I0", "*/*"]),
+                            rng.choice(["I0", "I1", "", "x", "I2"])) for _ in range(rng.choice([1, 1, 2]))]
+        items = uniq(items)
+        return ("ro:%d:%s" % (k, "&".join(items))) if sep == ":" else ("ro~%s" % "&".join(items))
+
     def simple_cmd(self, k, sep=":"):
         rng = self.rng
         r = rng.random()
+        if self.ordered and r < 0.25:
+            return self.ordered_cmd(k, sep)
         if r < self.hostile:
             h = rng.random()
             if h < 0.25:
@@ -335,6 +352,47 @@ class CHECK(vlib.Check):
             g = Gen(rng, hostile=0.3, priv_hosts=False, quiet=False, filters=False)
             out.append(("cut-all", "c|" + g.case(rng.choice([3, 5, 7]), rng.choice([2, 3]), cut="all")))
         return out
+
+    def gen_ordered(self, rng, tier):
+        n = 60 if tier == "quick" else 800
+        out = ["a:H;a:H;p:1:0:/*/*/*&/*/*/*/*;s:0:0:x=1;io:0:x:-=1&-=2&I0=3;ro:0:x/I1=I0;io:0:/H/1&../1&/*/*:-=7;ro:0:/H/1/*=I0;s:1:0:y=1;io:1:y:-=1;ro:0:../1/y/*=&/*/*/y/I0=;d:0",
+               "a:H;a:G;s:1:0:q=1;io:1:q:-=1&-=2;p:0:0:/*/*/q/*;io:0:/G/1/q&*:-=5;ro:0:/G/1/q/I0=I1&/*/*/*/*=I1;x:1:some:io~q~I0=9+ro~q/I2=I0+r~0~q/I1"]
+        for i in range(n):
+            g = Gen(rng, hostile=0.3, priv_hosts=False, quiet=False, filters=(i % 3 == 0), ordered=True)
+            out.append(g.case(rng.choice([6, 10, 14]), rng.choice([2, 3]), cut=("some" if i % 4 == 0 else None)))
+        return ["o|" + c for c in out]
+
+    def extra_stage(self, ctx):
+        """INSERTORDEREDDATA / REORDERDATA are not in the Coq model: this stream runs on the implementation alone and is judged by the
+        harness's own frame / detach-trace / as-if-never oracles (which compare ordered indices too) and by the sanitizers."""
+        import random, time
+        if not ctx.get("impl"):
+            return
+        rng = random.Random(ctx["seed"] * 7919 + 5)
+        cases = self.gen_ordered(rng, ctx["tier"])
+        t0 = time.time()
+        rc, out, err = vlib.run_lines(ctx["impl"], "".join(c + "\n" for c in cases), timeout=1500)
+        nfail = 0
+        seen = set()
+        for l in out:
+            sp = l.split(" ", 2)
+            if len(sp) >= 3 and sp[0].isdigit() and sp[1] == "ORACLE":
+                k = int(sp[0])
+                nfail += 1
+                sig = "ORACLE " + sp[2]
+                key = (sig.split(" op#")[0])
+                if key in seen:
+                    continue
+                seen.add(key)
+                ctx["failures"].append({"kind": "oracle", "signature": sig, "case": cases[k] if k < len(cases) else None,
+                                        "detail": {"oracle": sig, "stream": "ordered (implementation only)"}})
+        done = len({l.split(" ", 1)[0] for l in out if l[:1].isdigit()})
+        if rc != 0 or done < len(cases):
+            ctx["failures"].append({"kind": "crash", "signature": "crash: " + vlib.san_summary(err) + " (ordered stream)",
+                                    "case": cases[min(done, len(cases) - 1)], "detail": {"rc": rc, "stderr": err[-2500:]}})
+        ctx["extra_coverage"] = {"ordered_stream": {"cases": len(cases), "completed": done, "oracle_failures": nfail,
+                                                      "wall_s": round(time.time() - t0, 1),
+                                                      "note": "INSERTORDEREDDATA / REORDERDATA / indices: implementation + oracles only, not modelled"}}
 
     def nontrivial(self, case):
         ops = case.split("|", 1)[1].split(";")
